@@ -3,6 +3,7 @@
 package route
 
 import (
+	"bytes"
 	"strings"
 
 	"github.com/fabiolb/fabio/internal/vp"
@@ -228,5 +229,116 @@ func VPH_C05_script() {
 			}
 		}
 		vp.Assert(found, "target-present-with-service-dst-weight-tags")
+	}
+}
+
+func vpC05Chars(label, set string, max int) string {
+	n := vp.Choice(label+"-len", max+1)
+	for i := 0; i < max; i++ {
+		if n == i {
+			return vp.Chars(label, set, i)
+		}
+	}
+	return vp.Chars(label, set, max)
+}
+
+func vpC05Pick(label string, n int) int {
+	c := vp.Choice(label, n)
+	for i := 0; i < n-1; i++ {
+		if c == i {
+			return i
+		}
+	}
+	return n - 1
+}
+
+// VPH_C05_roundtrip: the text rendering of a table (Table.String) is accepted by the parser and
+// rebuilds the same route, target, tags, options and fixed weight. The table is built from one
+// route add with an arbitrary service name, arbitrary tag and option text and a weight drawn from
+// boundary values; host in two letter cases.
+func VPH_C05_roundtrip() { vpC05Roundtrip(vp.Param("SVC"), vp.Param("TAGS"), 0) }
+
+// VPH_C05_roundtrip_opts: the same with an arbitrary option string.
+func VPH_C05_roundtrip_opts() { vpC05Roundtrip(0, 0, vp.Param("OPTS")) }
+
+func vpC05Roundtrip(nsvc, ntags, nopts int) {
+	vp.CutAt("slots := make(byN, len(r.Targets))")
+	svc := "s" + vpC05Chars("svc", "a-zA-Z0-9._-", nsvc)
+	tags, opts := "a,b", "strip=/x"
+	if ntags > 0 {
+		tags = vpC05Chars("tags", "a-z ,\\=:/", ntags)
+	}
+	if nopts > 0 {
+		opts = vpC05Chars("opts", "a-z =/:", nopts)
+	}
+	// well-formed: no empty tag in the list
+	for _, tg := range strings.Split(tags, ",") {
+		vp.Assume(tags == "" || strings.TrimSpace(tg) != "")
+	}
+	host := []string{"foo.com", "Foo.COM", "", ":80"}[vpC05Pick("host", 4)]
+	path := []string{"/", "/A/b"}[vpC05Pick("path", 2)]
+	if host == ":80" {
+		path = ""
+	}
+	wi := vpC05Pick("weight", 5)
+	w := []string{"", "0.5", "1", "0.00004", "0.12345"}[wi]
+	if n := vp.Param("NSHARDS"); n > 1 {
+		vp.Assume(wi%n == vp.Param("SHARD"))
+	}
+	text := "route add " + svc + " " + host + path + " http://a.b:8080/x"
+	if w != "" {
+		text += " weight " + w
+	}
+	if tags != "" {
+		text += " tags \"" + tags + "\""
+	}
+	if opts != "" {
+		text += " opts \"" + opts + "\""
+	}
+	t1, err := NewTable(bytes.NewBufferString(text))
+	vp.Assert(err == nil && t1 != nil, "well-formed-command-accepted")
+	if err != nil || t1 == nil {
+		return
+	}
+	rendered := t1.String()
+	t2, err := NewTable(bytes.NewBufferString(rendered))
+	vp.Assert(err == nil && t2 != nil, "rendering-accepted-by-the-parser")
+	if err != nil || t2 == nil {
+		return
+	}
+	vp.Cover("round-trip")
+	vp.Assert(len(t1) == len(t2), "same-hosts")
+	for h, rs1 := range t1 {
+		rs2 := t2[h]
+		vp.Assert(len(rs1) == len(rs2), "same-routes")
+		if len(rs1) != len(rs2) {
+			return
+		}
+		for i := range rs1 {
+			r1, r2 := rs1[i], rs2[i]
+			vp.Assert(r1.Host == r2.Host && r1.Path == r2.Path, "same-route")
+			vp.Assert(len(r1.Targets) == len(r2.Targets), "same-targets")
+			if len(r1.Targets) != len(r2.Targets) {
+				return
+			}
+			for j := range r1.Targets {
+				a, b := r1.Targets[j], r2.Targets[j]
+				vp.Assert(a.Service == b.Service, "same-service")
+				vp.Assert(a.URL.String() == b.URL.String(), "same-destination")
+				vp.Assert(len(a.Tags) == len(b.Tags), "same-tags")
+				if len(a.Tags) == len(b.Tags) {
+					for k := range a.Tags {
+						vp.Assert(a.Tags[k] == b.Tags[k], "same-tags")
+					}
+				}
+				vp.Assert(len(a.Opts) == len(b.Opts), "same-options")
+				for k, v := range a.Opts {
+					v2, ok := b.Opts[k]
+					vp.Assert(ok && v == v2, "same-options")
+				}
+				d := a.FixedWeight - b.FixedWeight
+				vp.Assert(d < 0.0001 && d > -0.0001, "same-weight-to-four-decimals")
+			}
+		}
 	}
 }
